@@ -334,7 +334,124 @@ def _transform_part(run, rng, lines, meta, thorough):
             if not U.close(d2f.force_constants, fc_used, TOL, scale):
                 run.violation("DynmatToForceConstants.run", "roundtrip-fc-nonsymmetric", "round trip of a periodic non-symmetric array is not its index-permutation symmetrisation (diff %.3g)" % U.maxdiff(d2f.force_constants, fc_used), info)
         run.count("round-trip oracle", section="oracle")
+        _storage_variants(run, rng, lines, meta, cell, smat, pm, prim, scell, full, fc_used, cp, dms, backs, dict(info),
+                          tl, N, ms, ph_lines, scale, exact32=(kind != "pair"))
     common.switch_variant("omp")
+
+
+def _layouts(a, rng, allow32=False):
+    """the same logical array in the storage forms a caller may legally hand over"""
+    a = np.asarray(a)
+    out = [("fortran-order", np.asfortranarray(a))]
+    if a.ndim >= 2:
+        out.append(("transposed-view", np.ascontiguousarray(a.T).T))  # logical values of a, strides reversed
+        wide = np.zeros(a.shape[:-1] + (a.shape[-1] + 2,), dtype=a.dtype)
+        wide[..., 1:-1] = a
+        out.append(("column-slice-of-wider-table", wide[..., 1:-1]))
+    big = np.zeros(a.shape[:-1] + (2 * a.shape[-1],), dtype=a.dtype)
+    big[..., ::2] = a
+    out.append(("strided-view", big[..., ::2]))
+    out.append(("nested-list", a.tolist()))
+    if allow32 and a.dtype == np.float64 and (a.astype("float32").astype("float64") == a).all():
+        out.append(("float32", a.astype("float32")))
+    if a.dtype == np.float64 and (np.rint(a) == a).all():
+        out.append(("int64", np.rint(a).astype("int64")))
+    for tag, v in out:
+        if not isinstance(v, list):
+            assert np.array_equal(np.asarray(v, dtype=a.dtype if tag not in ("float32", "int64") else None).astype(a.dtype), a)
+    return out
+
+
+def _storage_variants(run, rng, lines, meta, cell, smat, pm, prim, scell, full, fc_used, cp, dms, backs, info, tl, N, ms, ph_lines, scale, exact32):
+    """Every array a caller can hand to the public entry points (commensurate_points, dynamical_matrices, force
+    constants, masses) in non-default storage: the results must equal the C-contiguous float64 case (C and Py)."""
+    import warnings
+
+    from phonopy.harmonic.dynmat_to_fc import DynmatToForceConstants
+
+    ref = backs[("forward", "C")]
+    ntest = 0
+
+    def check_back(tag, what, d2f, lang):
+        nonlocal ntest
+        d2f.run(lang=lang)
+        ntest += 1
+        got = np.array(d2f.force_constants)
+        if not U.close(got, ref, TOL, scale):
+            run.violation("DynmatToForceConstants.%s" % what, "storage-%s-%s-%s" % (tag, lang, "full" if full else "compact"),
+                          "%s given as %s: force constants differ from the C-contiguous float64 case by %.3g" % (what, tag, U.maxdiff(got, ref)),
+                          dict(info, argument=what, storage=tag, lang=lang))
+        return got
+
+    # commensurate points through the setter and through the init argument
+    for tag, v in _layouts(cp, rng):
+        if tag == "int64":
+            continue
+        for lang in ("C", "Py"):
+            d2f = DynmatToForceConstants(prim, scell, is_full_fc=full)
+            d2f.commensurate_points = v
+            d2f.dynamical_matrices = dms
+            got = check_back(tag, "commensurate_points", d2f, lang)
+        if tag == "transposed-view":
+            # correspondence: the model is fed with the caller's logical values
+            op = "d2ffull" if full else "d2f"
+            lines.append("%s %s %d %s %s %s" % (op, tl, N, U.flat(ms), U.flat_complex(dms), ph_lines))
+            meta.append(("inverse-C-storage-variant", dict(info, storage=tag), lambda line, got=got: _cmp(U.parse_rats(line, got.shape), got)))
+        with warnings.catch_warnings():
+            warnings.simplefilter("ignore")
+            d2f = DynmatToForceConstants(prim, scell, is_full_fc=full, commensurate_points=v, dynamical_matrices=dms)
+        try:
+            check_back(tag + "(init)", "commensurate_points", d2f, "C")
+        except TypeError as e:  # a legal array_like handed to the constructor must not reach the kernel unconverted
+            run.violation("DynmatToForceConstants.commensurate_points", "storage-%s(init)-C-rejected" % tag,
+                          "commensurate_points given as %s to the constructor: run() raises %s" % (tag, str(e)[:120]), dict(info, argument="commensurate_points", storage=tag))
+    # dynamical matrices
+    for tag, v in _layouts(dms, rng):
+        if tag == "nested-list" and dms.size > 4000:
+            v = [m for m in dms]  # list of arrays (what get_qpoints_dict style code hands over)
+        for lang in ("C", "Py"):
+            d2f = DynmatToForceConstants(prim, scell, is_full_fc=full)
+            d2f.dynamical_matrices = v
+            check_back(tag, "dynamical_matrices", d2f, lang)
+    # force constants and masses into the forward transform (Phonopy setters, DynamicalMatrix)
+    from phonopy.harmonic.dynamical_matrix import DynamicalMatrix
+
+    variants = _layouts(fc_used, rng, allow32=exact32)
+    for tag, v in variants:
+        if tag == "nested-list" and fc_used.size > 6000:
+            continue
+        ph = gen.make_phonopy(cell, smat, pmat=pm)
+        ph.force_constants = v if not isinstance(v, list) else np.array(v)
+        ph.run_qpoints(cp, with_dynamical_matrices=True)
+        got = np.array(ph.get_qpoints_dict()["dynamical_matrices"])
+        ntest += 1
+        if not U.close(got, dms, TOL, max(1.0, float(np.abs(dms).max()))):
+            run.violation("Phonopy.force_constants", "storage-%s-%s" % (tag, "full" if full else "compact"),
+                          "force constants given as %s: dynamical matrices differ from the C-contiguous float64 case by %.3g" % (tag, U.maxdiff(got, dms)),
+                          dict(info, argument="force_constants", storage=tag))
+        dmo = DynamicalMatrix(scell, prim, v)
+        for lang in (["C", "Py"] if full else ["C"]):
+            dmo.run(cp[-1], lang=lang)
+            ntest += 1
+            if not U.close(np.array(dmo.dynamical_matrix), dms[-1], TOL, max(1.0, float(np.abs(dms).max()))):
+                run.violation("DynamicalMatrix", "storage-%s-%s-%s" % (tag, lang, "full" if full else "compact"),
+                              "force constants given as %s: D(q) differs from the C-contiguous float64 case by %.3g" % (tag, U.maxdiff(dmo.dynamical_matrix, dms[-1])),
+                              dict(info, argument="force_constants", storage=tag, lang=lang))
+    m0 = np.array(prim.masses, dtype="double")
+    for tag, v in _layouts(m0, rng, allow32=True):
+        ph = gen.make_phonopy(cell, smat, pmat=pm)
+        ph.force_constants = fc_used.copy()
+        try:
+            ph.masses = v
+        except Exception as e:  # a legal array_like must be accepted
+            run.violation("Phonopy.masses", "storage-%s-rejected" % tag, "masses given as %s raise %s" % (tag, type(e).__name__), dict(info, storage=tag))
+            continue
+        ph.run_qpoints(cp, with_dynamical_matrices=True)
+        got = np.array(ph.get_qpoints_dict()["dynamical_matrices"])
+        ntest += 1
+        if not U.close(got, dms, 1e-6 if tag == "float32" else TOL, max(1.0, float(np.abs(dms).max()))):
+            run.violation("Phonopy.masses", "storage-%s" % tag, "masses given as %s: dynamical matrices differ by %.3g" % (tag, U.maxdiff(got, dms)), dict(info, storage=tag))
+    run.count("storage-variant oracle (arrays handed over in non-default layout)", n=ntest, section="oracle")
 
 
 def _cmp(model, impl):
